@@ -590,14 +590,14 @@ def work(task):
     stats = {"executions": 0, "points": 0, "by_preemptions": {}, "capped": False}
     if task.get("root"):
         subs, x = sched.first_level(s, make, bound, check, stats)
-        acc.notes.append({"subtrees": [(p, [list(e) for e in ex]) for p, ex in subs]})
+        acc.notes.append({"subtrees": subs})
     else:
-        expect = [tuple(tuple(w) if isinstance(w, list) else w for w in e) for e in task["expect"]] if task.get("expect") else None
-        expect = _fix_expect(expect)
+        zeros, alt = task["subtree"]
+        prefix = [0] * zeros + [alt]
         try:
-            sched.explore(s, make, bound, check, prefix=task["prefix"], expect=expect, stats=stats, max_exec=task.get("max_exec"))
+            sched.explore(s, make, bound, check, prefix=prefix, expect=None, stats=stats, max_exec=task.get("max_exec"))
         except core.HarnessError as e:
-            raise core.HarnessError(f"{h.name} {h.ops} level={level} bound={bound} subtree={task['prefix']}: {e}") from e
+            raise core.HarnessError(f"{h.name} {h.ops} level={level} bound={bound} subtree={task['subtree']}: {e}") from e
         if stats["capped"]:
             acc.count("capped_subtrees")
         if stats.get("divergence_retries"):
@@ -679,8 +679,8 @@ def run(ctx):
     subtrees = [n["subtrees"] for n in roots.notes if isinstance(n, dict) and "subtrees" in n]
     tasks = []
     for spec, subs in zip(specs, subtrees):
-        for prefix, expect in subs:
-            tasks.append(dict(spec, prefix=prefix, expect=expect))
+        for sub in subs:
+            tasks.append(dict(spec, subtree=tuple(sub)))
     ctx.acc.notes = []
     ctx.log(f"{len(specs)} harnesses, {len(tasks)} first-level subtrees")
     acc = core.pmap(work, tasks)
